@@ -231,23 +231,45 @@ Definition view (st : state) : list (list V * V) :=
 End Run.
 
 (* ---------- specification side: what the history should be ---------- *)
-(* the vectors proposed, as they were when proposed *)
-Fixpoint trace (h : list (list V)) (ops : list op) : list (list V) :=
+(* the vectors proposed, as they were when proposed (a plain Fitness has no batch interface) *)
+Fixpoint trace (pyswarms : bool) (h : list (list V)) (ops : list op) : list (list V) :=
   match ops with
   | [] => []
-  | OCall b :: rest => buf h b :: trace h rest
-  | OWrite b v :: rest => trace (upd h b v) rest
-  | OBatch bs :: rest => map (buf h) bs ++ trace h rest
+  | OCall b :: rest => buf h b :: trace pyswarms h rest
+  | OWrite b v :: rest => trace pyswarms (upd h b v) rest
+  | OBatch bs :: rest => (if pyswarms then map (buf h) bs else []) ++ trace pyswarms h rest
   end.
 Definition success (m : model) (L : lik) (vec : list V) : option (list V * V) :=
   match evaluate m L vec with EvOk ll _ => Some (vec, ll) | _ => None end.
+Definition ps_success (m : model) (L : lik) (lp : lprior) (r : V) (vec : list V) : option (list V * V) :=
+  snd (ps_particle m L lp r vec).
 Fixpoint filter_map {A B} (f : A -> option B) (l : list A) : list B :=
   match l with
   | [] => []
   | x :: t => match f x with Some y => y :: filter_map f t | None => filter_map f t end
   end.
+(* "the optional history records exactly the successfully evaluated vectors with their likelihoods, in order" *)
 Definition spec_history (m : model) (L : lik) (fl : flags) (calls : list (list V)) : list (list V * V) :=
   if fl_store fl then filter_map (success m L) calls else [].
+Definition spec_history_ps (m : model) (L : lik) (lp : lprior) (r : V) (fl : flags) (calls : list (list V)) : list (list V * V) :=
+  if fl_store fl then filter_map (ps_success m L lp r) calls else [].
+(* the figures of merit the search receives, computed without any history *)
+Fixpoint spec_outputs (m : model) (L : lik) (lp : lprior) (fl : flags) (r : V) (h : list (list V)) (ops : list op) : list (list res) :=
+  match ops with
+  | [] => []
+  | OCall b :: rest => [call_value m L lp fl r (buf h b)] :: spec_outputs m L lp fl r h rest
+  | OWrite b v :: rest => [] :: spec_outputs m L lp fl r (upd h b v) rest
+  | OBatch _ :: rest => [] :: spec_outputs m L lp fl r h rest
+  end.
+
+(* pyswarms: one figure of merit per particle, in particle order; no flag is consulted *)
+Fixpoint spec_outputs_ps (m : model) (L : lik) (lp : lprior) (r : V) (h : list (list V)) (ops : list op) : list (list res) :=
+  match ops with
+  | [] => []
+  | OCall b :: rest => [fst (ps_particle m L lp r (buf h b))] :: spec_outputs_ps m L lp r h rest
+  | OWrite b v :: rest => [] :: spec_outputs_ps m L lp r (upd h b v) rest
+  | OBatch bs :: rest => map (fun b => fst (ps_particle m L lp r (buf h b))) bs :: spec_outputs_ps m L lp r h rest
+  end.
 
 (* guards of the partial theorems *)
 Fixpoint writes_to (b : nat) (ops : list op) : bool :=
